@@ -741,6 +741,7 @@ func (g *generator) genService(f *File) {
 				}
 			}
 			a.Type = g.genType(f, g.cfg.Depth, nil)
+			a.GoName = g.goNameAnn()
 			a.Label = g.label()
 			a.Redact = r.Chance(g.cfg.RedactPct, 100)
 			if r.Chance(g.cfg.DefaultPct, 300) && fieldDefaultOK(a.Type) {
@@ -766,7 +767,7 @@ func (g *generator) genService(f *File) {
 					continue // the same exception type twice makes a duplicate case in IsException
 				}
 				usedExc[d] = true
-				e := &Field{Name: g.fieldName(), Req: Unspecified, Type: &Type{K: Named, Ref: d}}
+				e := &Field{Name: g.fieldName(), Req: Unspecified, Type: &Type{K: Named, Ref: d}, GoName: g.goNameAnn()}
 				for {
 					e.ID = 1 + r.Intn(6)
 					if !eids[e.ID] {
